@@ -458,7 +458,7 @@ theorem logOK_cases {y : ℚ} {e0 l : ℤ} (hb : Bracket y l) (h : LogOK y e0) :
 
 /-- closed form of `stochastic_round_po2`: independent of the log oracle -/
 theorem stochasticRoundPo2Core_eq {y : ℚ} {e0 l : ℤ} (u : ℚ) (hb : Bracket y l) (h : LogOK y e0) :
-    stochasticRoundPo2Core y e0 u = if y < pow2 l + u * pow2 l then l else l + 1 := by
+    stochasticRoundPo2Core y e0 u = if y ≤ pow2 l + u * pow2 l then l else l + 1 := by
   unfold stochasticRoundPo2Core
   rcases logOK_cases hb h with e | e
   · subst e
@@ -554,14 +554,14 @@ theorem binary_sign_kept (use01 : Bool) (α x m u1 u2 : ℚ) (hm : 0 < m)
     rw [sgn_pos h3, sgn_pos hx0]
     cases use01 <;> simp [absR] <;> norm_num
 
-/-- po2: an exact power of two inside the exponent range, below `max_value`, is fixed by every draw u > 0 -/
-theorem po2_clip_code_fixed (c : Po2Cfg) (hs : c.stoch = true) (k : ℤ) (u : ℚ) (hu : 0 < u)
+/-- po2: an exact power of two inside the exponent range, below `max_value`, is fixed by every draw u ≥ 0 -/
+theorem po2_clip_code_fixed (c : Po2Cfg) (hs : c.stoch = true) (k : ℤ) (u : ℚ) (hu : 0 ≤ u)
     (hx : ¬ pow2 k < epsK) (hf : po2Filter c (pow2 k) = pow2 k)
     (h : LogOK (pow2 k) (roundLog2 (pow2 k + epsK))) :
     clipPowerOfTwo c true (pow2 k) u = clipI k c.minExp c.maxExp := by
   unfold clipPowerOfTwo
   simp only [hs, hx, if_true, if_false, hf, stochasticRoundPo2, absR_nonneg_id (pow2_pos k).le]
   rw [stochasticRoundPo2Core_eq u (bracket_pow2 k) h]
-  have : pow2 k < pow2 k + u * pow2 k := by have := pow2_pos k; nlinarith
+  have : pow2 k ≤ pow2 k + u * pow2 k := by have := pow2_pos k; nlinarith
   simp [this]
 end QKV.Stoch
